@@ -188,6 +188,10 @@ Definition scanEquals (s : lx) : token * lx :=
   | _ => (tok TEquals [61] (position s) (position s1), s1)
   end.
 
+(* a one-character token (parentheses, brackets, the pipe): it starts before the character *)
+Definition scanSingle (ty : ttype) (v : list N) (s : lx) : token * lx :=
+  let s' := advance s in (tok ty v (position s) (position s'), s').
+
 Definition scanSign (s : lx) : token * lx :=
   let s' := advance s in (tok TSign [peek s] (position s) (position s'), s').
 
@@ -352,11 +356,11 @@ Definition scanInLine (s0 : lx) : token * lx :=
       if ch =? 10 then scanNewline s
       else if ch =? 59 then scanComment s
       else if ch =? 40 then
-        (if looksLikeVirtualAccount s then let s' := advance s in (makeToken TLParen [40] s', s') else scanCode s)
-      else if ch =? 41 then let s' := advance s in (makeToken TRParen [41] s', s')
-      else if ch =? 91 then let s' := advance s in (makeToken TLBracket [91] s', s')
-      else if ch =? 93 then let s' := advance s in (makeToken TRBracket [93] s', s')
-      else if ch =? 124 then let s' := advance s in (makeToken TPipe [124] s', s')
+        (if looksLikeVirtualAccount s then scanSingle TLParen [40] s else scanCode s)
+      else if ch =? 41 then scanSingle TRParen [41] s
+      else if ch =? 91 then scanSingle TLBracket [91] s
+      else if ch =? 93 then scanSingle TRBracket [93] s
+      else if ch =? 124 then scanSingle TPipe [124] s
       else if ch =? 64 then scanAt s
       else if ch =? 61 then scanEquals s
       else if (ch =? 42) || (ch =? 33) then scanStatus s
